@@ -44,6 +44,9 @@ class Gen:
         return gs.IRI(r.choice(self.prefixes) + r.choice(self.names))
 
     def bnode(self) -> gs.BlankNode:
+        if self.r.random() < 0.12:
+            # a blank-node label that is, as a string, one of the IRIs of the same stream
+            return gs.BlankNode(self.r.choice(self.prefixes) + self.r.choice(self.names))
         return gs.BlankNode(self.r.choice(BNODES))
 
     def literal(self, typed: bool = True) -> gs.Literal:
@@ -90,6 +93,11 @@ class Gen:
             for i in range(arity):
                 if prev is not None and self.r.random() < prepeat:
                     cur.append(prev[i])
+                elif prev is not None and i < 3 and typed and isinstance(prev[i], gs.Literal) and self.r.random() < 0.2 \
+                        and prev[i]._langtag is None and prev[i]._datatype in (None, XSD_STRING):
+                    # the same lexical form in the other spelling: plain <-> typed xsd:string (different API terms,
+                    # one wire form)
+                    cur.append(gs.Literal(prev[i]._lex, datatype=None if prev[i]._datatype else XSD_STRING))
                 elif i == 3:
                     cur.append(self.graph(typed))
                 else:
